@@ -336,6 +336,24 @@ func poolBigInner(cfg2 *geometry.IndexOptions) (outers, inners []*shp) {
 			}
 		}
 	}
+	// thin bands of 14 / 16 / 18 positions along the falling diagonal, as ring and as line
+	for _, n := range []int{6, 7, 8} {
+		var lo, hi []exact.P
+		for k := 0; k <= n; k++ {
+			lo = append(lo, exact.P{X: int64(2 + 2*k), Y: int64(2*n + 2 - 2*k)})
+			hi = append(hi, exact.P{X: int64(3 + 2*k), Y: int64(2*n + 3 - 2*k)})
+		}
+		ring := append([]exact.P{}, lo...)
+		for k := n; k >= 0; k-- {
+			ring = append(ring, hi[k])
+		}
+		a := mkShp(&exact.Shape{Kind: exact.KPoly, Ext: append(ring, ring[0])}, cfg2)
+		a.tag = fmt.Sprintf("band%d", len(ring))
+		inners = append(inners, a)
+		l := mkShp(&exact.Shape{Kind: exact.KLine, Line: append(append([]exact.P{}, lo...), hi[n], hi[n-1])}, idxCfgs[1].Opts)
+		l.tag = fmt.Sprintf("bandline%d", n+3)
+		inners = append(inners, l)
+	}
 	// the 16-gon itself without its closing vertex (16 positions instead of 17)
 	{
 		var ring []exact.P
@@ -383,6 +401,12 @@ func poolBigInner(cfg2 *geometry.IndexOptions) (outers, inners []*shp) {
 		}
 	}
 	add("L", H2(0, 0, 20, 0, 20, 10, 10, 10, 10, 20, 0, 20, 0, 0))
+	// convex outers that are not boxes: a band along the diagonal (it holds two
+	// opposite corners of an inner shape's rectangle and not the other two), a
+	// triangle, a diamond
+	add("diagonal-band", H2(0, 0, 4, 0, 20, 16, 20, 20, 16, 20, 0, 4, 0, 0))
+	add("triangle", H2(0, 0, 20, 0, 0, 20, 0, 0))
+	add("diamond", H2(10, -2, 22, 10, 10, 22, -2, 10, 10, -2))
 	add("hole-inside-disc", H2(0, 0, 20, 0, 20, 20, 0, 20, 0, 0), H2(9, 9, 11, 9, 11, 11, 9, 11, 9, 9))
 	add("hole-at-disc-edge", H2(0, 0, 20, 0, 20, 20, 0, 20, 0, 0), H2(15, 9, 18, 9, 18, 11, 15, 11, 15, 9))
 	// frames: the inner shape lies in the hole and touches its boundary from inside (or crosses it, for the offsets)
